@@ -417,7 +417,7 @@ func lastReqs(reg *simreg.Registry, mark int) string {
 func TestC15(t *testing.T) {
 	hx.Main(t, hx.Prop{
 		ID:               "C15",
-		Rule:             "each run draws a layer kind (built with a prioritized set -> prefetch landmark; built without -> no-prefetch landmark; hand-written blob without landmarks), build options, prefetch size 0..1.5x blob, async threshold, prefetch chunk size, registry chunk size, memory/directory caches with tiny LRUs, metadata store, prefetch timeout 2s/10s, background concurrency and silence period, and a registry that is calm in half of the runs and otherwise fails, stalls and delays requests; phase 1 runs 1-2 concurrent Prefetch calls and 1-2 waiters (WaitForPrefetchCompletion, also repeated), then checks: no-prefetch landmark => zero blob requests; prefetch returned nil everywhere => reading every prioritized file (or the first min(size, blob) bytes when there is no landmark) adds zero registry requests; every wait returns within the configured timeout of simulated time. Phase 2 runs 1-2 BackgroundFetch calls with on-demand readers arriving; if it returned nil every regular file must read fully with the registry unreachable. non-trivial = a locality or offline check was performed; distinct = schedule hash x configuration",
+		Rule:             "each run draws a layer kind (built with a prioritized set -> prefetch landmark; built without -> no-prefetch landmark; hand-written blob without landmarks), build options, prefetch size 0..1.5x blob, async threshold, prefetch chunk size, registry chunk size, memory/directory caches with tiny LRUs, metadata store, prefetch timeout 2s/10s, background concurrency and silence period, and a registry that is calm in half of the runs and otherwise fails, stalls and delays requests; phase 1 runs 1-2 concurrent Prefetch calls and 1-2 waiters (WaitForPrefetchCompletion, also repeated), then checks: no-prefetch landmark => zero blob requests; prefetch returned nil everywhere => reading every prioritized file (or the first min(size, blob) bytes when there is no landmark) adds zero registry requests; every wait returns within the configured timeout of simulated time. Phase 2 runs 1-2 BackgroundFetch calls with on-demand readers arriving; if it returned nil every regular file must read fully with the registry unreachable. non-trivial = a locality or offline check was performed; distinct = schedule hash x configuration A quarter of the runs is the 'daemon' campaign through the real filesystem (fs/fs.go): one layer with a prefetch landmark is mounted (Mount starts the prefetch) and Check - where a container start waits for it - is called 1-3 times, with prefetch timeouts of 3/10/30 s, the prefetch's transfers delayed by 0-20 s, expiring CDN URLs, short outages, and the connectivity-check request inside Check answered 500 once (the check fails, the refresh succeeds): a Check that returns nil before the timeout has passed (and before any earlier wait timed out) must not be followed by an answer to a request of the prefetch task (the prefetch was still in flight), Check returns within the timeout plus 100 s, and against a calm registry the prioritized files are local afterwards (no registry request).",
 		Run:              run,
 		PanicIsViolation: true,
 		HangIsViolation:  true,
